@@ -85,6 +85,18 @@ public:
         Json j = Json::parse(line);
         if (j.has("harness_exception"))
         {
+            const std::string tn = j.has("type") ? j.str("type") : std::string();
+            const bool from_library = tn.find("djinterop") != std::string::npos || tn.find("sqlite") != std::string::npos || tn == "std::length_error" || tn == "std::out_of_range" ||
+                                      tn == "std::invalid_argument" || tn == "std::logic_error" || tn == "std::bad_optional_access" || tn == "std::bad_alloc";
+            if (from_library)
+            {
+                counters["unexpected_library_exceptions"]++;
+                std::string where = j.has("label") && !j.str("label").empty() ? j.str("label") : "task " + std::to_string(j.has("task") ? (long long)j.find("task")->i : -1);
+                std::string key = "unexpected_exception|" + tn;
+                vcount[key]++;
+                rep.add(Violation{key, "a library call the check relies on threw " + tn + ": " + j.str("harness_exception") + " (at " + where + ")", where, Json(j.str("harness_exception"))});
+                return;
+            }
             counters["harness_exceptions"]++;
             harness_errors.push_back(j.str("harness_exception"));
             return;
